@@ -669,12 +669,20 @@ repsLoop:
 		}
 
 		var counter int
+		used := []interop.PublicKey{} // nodes whose signature has already been counted
 		for _, sig := range sigs[i] {
 			pubsI := Nodes(cid, uint8(i))
+		pubsLoop:
 			for iterator.Next(pubsI) {
 				pub := iterator.Value(pubsI).(interop.PublicKey)
+				for _, u := range used {
+					if pub.Equals(u) {
+						continue pubsLoop
+					}
+				}
 				if crypto.VerifyWithECDsa(msg, pub, sig, crypto.Secp256r1Sha256) {
 					counter++
+					used = append(used, pub)
 					break
 				}
 			}
